@@ -7,3 +7,5 @@ import PV.Proofs.ScoreLemmas
 import PV.Properties.C15
 import PV.Model.SCC
 import PV.Properties.C11
+import PV.Model.Grouping
+import PV.Properties.C10
